@@ -120,9 +120,10 @@ def run(ctx):
     drift = []
     seen = []
     if ctx.thorough:
-        configs = [("one-metric", cfg(1, 4, 3, 2, 4, 6)), ("two-metrics", cfg(2, 2, 2, 1, 2, 4))]
+        bounds = [("one-metric", (1, 4, 3, 2, 4, 6)), ("two-metrics", (2, 2, 2, 1, 2, 4))]
     else:
-        configs = [("one-metric", cfg(1, 3, 3, 2, 3, 5)), ("two-metrics", cfg(2, 2, 2, 1, 1, 3))]
+        bounds = [("one-metric", (1, 3, 3, 2, 3, 5)), ("two-metrics", (2, 2, 2, 1, 1, 3))]
+    configs = [(n, cfg(*b)) for n, b in bounds]
     for name, c in configs:
         r = vlib.tlc(ctx, "StoreGc", c, label="StoreGc-" + name, timeout=2400)
         seen += replay_cases(ctx, binary, r.cases, name, drift)
@@ -138,7 +139,10 @@ def run(ctx):
     ctx.cov["exhaustive"] = True
     ctx.cov["rule"] = ("every (store, T) within the bounds is one Gc pass replayed on a real Store; non-trivial = some metric with >= 2 "
                        "data loses some but not all of them, or a metric over its limit also holds expiry-marked data")
-    ctx.cov["constants"] = {"configs": [n for n, _ in configs], "thorough": ctx.thorough}
+    ctx.cov["constants"] = {n: dict(zip(("MaxMetrics", "MaxData", "Times_1_to", "Expiry_0_to", "Limits_0_to", "GcTimes_1_to"), b))
+                            for n, b in bounds}
+    if ctx.thorough:
+        ctx.cov["constants"]["model_only_five_data"] = dict(zip(("MaxMetrics", "MaxData", "Times_1_to", "Expiry_0_to", "Limits_0_to", "GcTimes_1_to"), (1, 5, 2, 1, 3, 4)))
     if drift:
         ctx.cov["impl_layer_drift"] = {"count": len(drift), "first": drift[0],
                                        "meaning": "real result differs from StoreGc.tla's deterministic result but TLC accepts it under GcPost"}
